@@ -437,6 +437,20 @@ Definition conn_ok (l : lang) (nots impls ands ors : list shape) : bool :=
   && forallb (and_shape_ok l) ands && forallb (or_shape_ok l) ors
   && nonempty nots && nonempty impls && nonempty ands && nonempty ors.
 
+(** Quantifiers. A row of a translated quantifier table: (the node is [Any], the generator
+    is [ForRange], the helper the template is written with reads as an `any`, its iteration
+    reads as a range) — e.g. C++ [common::SomeRange] is (.., .., true, true), Java
+    [x.stream().allMatch] is (.., .., false, false). The table is right when every row
+    emits what the node is, and all four cases any/all x for-each/for-range are present. *)
+Definition quantifier_row_ok (r : bool * bool * bool * bool) : bool :=
+  match r with (a, g, a', g') => bool_eqb a a' && bool_eqb g g' end.
+Definition quantifier_case_present (t : list (bool * bool * bool * bool)) (a g : bool) : bool :=
+  existsb (fun r => match r with (x, y, _, _) => bool_eqb x a && bool_eqb y g end) t.
+Definition quantifier_table_ok (t : list (bool * bool * bool * bool)) : bool :=
+  forallb quantifier_row_ok t
+  && quantifier_case_present t true false && quantifier_case_present t true true
+  && quantifier_case_present t false false && quantifier_case_present t false true.
+
 (** The holes of a comparison template in emission order must be left, comparator, right. *)
 Definition h_left : text := [108;101;102;116]%N.
 Definition h_comparator : text := [99;111;109;112;97;114;97;116;111;114]%N.
